@@ -104,11 +104,16 @@ def dag_edges(draw, n, max_parents=3, shape=None):
 
 
 @st.composite
-def dag_spec(draw, min_nodes=1, max_nodes=6, name_kinds=("str", "word", "int", "tuple"), max_parents=3, latents=False):
+def dag_spec(draw, min_nodes=1, max_nodes=6, name_kinds=("str", "word", "int", "tuple"), max_parents=3, latents=False, connected=False):
     n = draw(st.integers(min_nodes, max_nodes))
     kind, names = draw(node_names(n, name_kinds))
     topo = list(draw(st.permutations(names)))  # topo[i] is the node at topological position i
     shape, e = draw(dag_edges(n, max_parents))
+    if connected:
+        comps = _components(list(range(n)), e)
+        for c1, c2 in zip(comps, comps[1:]):
+            a, b = min(c1), min(c2)
+            e.append((min(a, b), max(a, b)))
     edges = [(topo[i], topo[j]) for i, j in e]
     edges = list(draw(st.permutations(edges))) if edges else []
     spec = {"name_kind": kind, "shape": shape, "nodes": names, "topo": topo, "edges": [list(x) for x in edges]}
@@ -164,8 +169,9 @@ def bn_spec(
     latents=False,
     col_kinds=COL_KINDS,
     max_cells=5000,
+    connected=False,
 ):
-    g = draw(dag_spec(min_nodes, max_nodes, name_kinds, max_parents, latents))
+    g = draw(dag_spec(min_nodes, max_nodes, name_kinds, max_parents, latents, connected))
     nodes = g["nodes"]
     n = len(nodes)
     hi = max_card if n <= 4 else min(max_card, 3)
@@ -245,3 +251,192 @@ def all_dags(n):
             res.append(tuple(edges))
     _DAG_CACHE[n] = res
     return res
+
+
+# ----------------------------------------------------------------------------------------------
+# Markov networks / factor graphs / junction trees
+# ----------------------------------------------------------------------------------------------
+@st.composite
+def factor_values(draw, n, zero_rate=8):
+    vals = []
+    for _ in range(n):
+        z = draw(st.integers(0, zero_rate))
+        if z == 0:
+            vals.append(0.0)
+        elif z == 1:
+            vals.append(10.0 ** (-draw(st.integers(1, 5))))
+        else:
+            vals.append(draw(st.integers(1, 500)) / 100.0)
+    return vals
+
+
+def _components(nodes, edges):
+    comp = {v: v for v in nodes}
+
+    def find(x):
+        while comp[x] != x:
+            comp[x] = comp[comp[x]]
+            x = comp[x]
+        return x
+
+    for u, v in edges:
+        comp[find(u)] = find(v)
+    groups = {}
+    for v in nodes:
+        groups.setdefault(find(v), []).append(v)
+    return list(groups.values())
+
+
+@st.composite
+def mn_spec(draw, min_nodes=2, max_nodes=6, connected=True, name_kinds=("str", "word", "int", "tuple"), state_kinds=STATE_KINDS,
+            max_card=3, min_card=1, duplicates=True, shape=None):
+    n = draw(st.integers(min_nodes, max_nodes))
+    kind, names = draw(node_names(n, name_kinds))
+    card, states = [], []
+    for _ in range(n):
+        c = draw(st.sampled_from([k for k in [1, 2, 2, 2, 3, 3] if min_card <= k <= max_card]))
+        _, s = draw(states_for(c, state_kinds))
+        card.append(c)
+        states.append(s)
+    shape = shape or draw(st.sampled_from(["random", "random", "cycle", "tree", "dense"]))
+    scopes = []
+    if shape == "cycle" and n >= 4:
+        order = list(draw(st.permutations(names)))
+        scopes = [[order[i], order[(i + 1) % n]] for i in range(n)]
+    elif shape == "tree":
+        order = list(draw(st.permutations(names)))
+        for i in range(1, n):
+            scopes.append([order[draw(st.integers(0, i - 1))], order[i]])
+    elif shape == "dense":
+        order = list(draw(st.permutations(names)))
+        scopes = [[a, b] for i, a in enumerate(order) for b in order[i + 1 :] if draw(st.integers(0, 3)) > 0]
+    else:
+        for _ in range(draw(st.integers(1, n + 1))):
+            k = draw(st.sampled_from([1, 2, 2, 2, 3]))
+            scopes.append(list(draw(st.permutations(names)))[: min(k, n)])
+    # every node must be covered by a factor
+    covered = {v for s in scopes for v in s}
+    for v in names:
+        if v not in covered:
+            scopes.append([v])
+    edges = []
+    for s in scopes:
+        for i, a in enumerate(s):
+            for b in s[i + 1 :]:
+                if [a, b] not in edges and [b, a] not in edges:
+                    edges.append([a, b])
+    if connected:
+        comps = _components(names, edges)
+        for c1, c2 in zip(comps, comps[1:]):
+            scopes.append([c1[0], c2[0]])
+            edges.append([c1[0], c2[0]])
+    if duplicates and draw(st.integers(0, 2)) == 0:
+        k = draw(st.integers(0, len(scopes) - 1))
+        scopes.append(list(reversed(scopes[k])) if draw(st.booleans()) else list(scopes[k]))
+        dup_of = k
+    else:
+        dup_of = None
+    factors = []
+    for i, s in enumerate(scopes):
+        m = 1
+        for v in s:
+            m *= card[names.index(v)]
+        if dup_of is not None and i == len(scopes) - 1:
+            src = factors[dup_of]
+            if s == src["vars"]:
+                vals = list(src["values"])
+            else:
+                # same named values, reversed axis order
+                cs = [card[names.index(v)] for v in src["vars"]]
+                import itertools as _it
+
+                table = {idx: src["values"][p] for p, idx in enumerate(_it.product(*[range(c) for c in cs]))}
+                vals = [table[tuple(reversed(idx))] for idx in _it.product(*[range(c) for c in reversed(cs)])]
+        else:
+            vals = draw(factor_values(m))
+            if all(x == 0.0 for x in vals):
+                vals[0] = 1.0
+        factors.append({"vars": s, "values": vals})
+    extra = []
+    if draw(st.integers(0, 3)) == 0 and shape == "random":
+        a, b = list(draw(st.permutations(names)))[:2] if n >= 2 else (names[0], names[0])
+        if a != b and [a, b] not in edges and [b, a] not in edges:
+            extra = [[a, b]]
+    edges = list(draw(st.permutations(edges + extra))) if edges + extra else []
+    spec = {"name_kind": kind, "shape": shape, "nodes": names, "card": card, "states": states, "edges": [list(e) for e in edges],
+            "factors": factors, "has_duplicate": dup_of is not None}
+    # the joint must have positive mass
+    from .oracle.joint import Joint
+
+    if Joint.from_factors(names, states, factors).total() <= 0:
+        for f in factors:
+            f["values"] = [x if x > 0 else 1.0 for x in f["values"]]
+        spec["zeros_removed"] = True
+    return spec
+
+
+@st.composite
+def jt_spec(draw, max_cliques=4, name_kinds=("str", "word", "int", "tuple"), state_kinds=STATE_KINDS):
+    """A clique tree satisfying the running-intersection property by construction: every clique shares a
+    non-empty subset of its parent's variables and introduces new variables."""
+    k = draw(st.integers(1, max_cliques))
+    pool_kind, pool = draw(node_names(8, name_kinds))
+    used = 0
+    cliques = []
+    tree = []
+    for i in range(k):
+        if i == 0:
+            m = draw(st.integers(1, 3))
+            cl = pool[used : used + m]
+            used += m
+        else:
+            p = draw(st.integers(0, i - 1))
+            shared = [v for v in cliques[p] if draw(st.booleans())] or cliques[p][:1]
+            m = draw(st.integers(1, 2))
+            if used + m > len(pool):
+                m = len(pool) - used
+            if m <= 0:
+                break
+            cl = shared + pool[used : used + m]
+            used += m
+            tree.append([p, i])
+        cliques.append(list(draw(st.permutations(cl))))
+    nodes = pool[:used]
+    card, states = [], []
+    for _ in nodes:
+        c = draw(st.sampled_from([1, 2, 2, 3]))
+        _, s = draw(states_for(c, state_kinds))
+        card.append(c)
+        states.append(s)
+    factors = []
+    for cl in cliques:
+        m = 1
+        for v in cl:
+            m *= card[nodes.index(v)]
+        vals = draw(factor_values(m, zero_rate=12))
+        if all(x == 0.0 for x in vals):
+            vals[0] = 1.0
+        factors.append({"vars": cl, "values": vals})
+    from .oracle.joint import Joint
+
+    if Joint.from_factors(nodes, states, factors).total() <= 0:
+        for f in factors:
+            f["values"] = [x if x > 0 else 1.0 for x in f["values"]]
+    return {"name_kind": pool_kind, "nodes": nodes, "card": card, "states": states, "cliques": cliques,
+            "tree": [[cliques[a], cliques[b]] for a, b in tree], "factors": factors}
+
+
+def drop_equal_factors(spec):
+    """factors of the spec without later factors that equal an earlier one by value (same scope, same named
+    values): a factor graph keys its factor nodes by factor equality and cannot hold two of them."""
+    import itertools as _it
+
+    seen, out = [], []
+    for f in spec["factors"]:
+        cs = [spec["card"][spec["nodes"].index(v)] for v in f["vars"]]
+        named = {frozenset(zip(f["vars"], idx)): f["values"][p] for p, idx in enumerate(_it.product(*[range(c) for c in cs]))}
+        if any(named.keys() == o.keys() and all(abs(named[k] - o[k]) <= 1e-8 + 1e-5 * abs(o[k]) for k in o) for o in seen):
+            continue
+        seen.append(named)
+        out.append(f)
+    return out
